@@ -110,3 +110,14 @@ def tabulate (factors : List (String × List String)) (trials : List Nat) (e : E
     | .ok f => if trials.isEmpty then .error .zeroDivision else .ok (combo, f))
 
 end SPModel.Api
+
+namespace SPModel.Api
+
+/-- `ContinuousFactorWindow.get_window_val(idx, values)` for one factor: the
+    entries for offsets `0, -1, …, -(width-1)`; `none` stands for NaN. -/
+def windowVal {α} (width stride start : Nat) (vals : List α) (idx : Nat) : List (Option α) :=
+  if idx < start then List.replicate width none
+  else if stride > 1 ∧ (idx - start) % stride ≠ 0 then List.replicate width none
+  else (List.range width).map (fun k => if k ≤ idx then vals[idx - k]? else none)
+
+end SPModel.Api
